@@ -430,8 +430,14 @@ func c12StructTables(msg []byte) (tbl string, qt string, ok bool) {
 func genMimeStruct(r *Rng, n int, w io.Writer, st *Stats) {
 	r = r.Fork() // NewRng(seed+1) is NewRng(seed) advanced by one draw: decorrelate the seeds
 	mimeQuietLogs()
+	dir := c12DirectedMessages(r, n, st, "mime-struct")
 	for i := 0; i < n; i++ {
-		msg := mimeGenMessage(r, st, "mime-struct")
+		var msg []byte
+		if i < len(dir) {
+			msg = dir[i]
+		} else {
+			msg = mimeGenMessage(r, st, "mime-struct")
+		}
 		tbl, qt, _ := c12StructTables(msg)
 		fmt.Fprintf(w, "mime-struct %s %s %s\n", mimeHex(msg), tbl, qt)
 	}
